@@ -345,6 +345,19 @@ class Judge:
                         versions.add(r)
             model = {m for m in self.lh if m in versions or (self.by[m] & versions)}
             stable_path = len(paths) == 1
+            # tree comparison follows *paths*, the per-file graph follows the *file id*: the two are only comparable for a
+            # file that kept one path, was never deleted (and brought back) and whose path never held another file id
+            if stable_path:
+                for r in self.anc:
+                    has = entry(r, fid) is not None
+                    if not has and any(p in self.g.P and entry(p, fid) is not None for p in g.P[r]):
+                        stable_path = False
+                        ctx.count("file_deleted_somewhere_delta_not_judged")
+                        break
+                    if not has and tree(r).is_versioned(path):
+                        stable_path = False
+                        ctx.count("file_path_reused_delta_not_judged")
+                        break
             results = {}
             raised = {}
             for deltas in (False, True):
@@ -410,7 +423,14 @@ class Judge:
                     ctx.hist("file:delta-vs-graph:reverse:levels%d:%s" % (levels, "equal" if not only_graph and not only_delta else (
                         "explained" if not unexplained and not only_delta else "differ")))
                     if unexplained or only_delta:
-                        self.fail("file:delta-vs-graph:mainline-sets-differ:reverse:levels%d" % levels,
+                        key = "file:delta-vs-graph:mainline-sets-differ:reverse:levels%d" % levels
+                        added_in_merged = [r for r, _n, d in dr[1] if d and r not in self.main and g.left_parent(r) not in (None, NULL)
+                                           and entry(g.left_parent(r), fid) is None and entry(r, fid) is not None]
+                        if levels == 0 and not only_delta and added_in_merged:
+                            # the walk met a merged (side-branch) revision whose left parent does not have the file yet: tree
+                            # comparison sees an 'add', ends the file's life there and drops every older mainline revision
+                            key = "file:delta:levels0:file-life-ended-by-merged-revision-that-lacks-it"
+                        self.fail(key,
                                   "%r: only per-file graph lists %r, only delta matching lists %r; versions %r" % (
                                       path, sorted(unexplained), sorted(only_delta), sorted(versions)),
                                   path=path, file_id=fid.decode(), delta_result=[(r.decode(), n, d) for r, n, d in dr[1]],
